@@ -111,6 +111,29 @@ def oracle(tr):
                     if len(errs) != 1:
                         bad.append((None, "step %d: message to ownerless %s earned its sender %d error replies" % (i, d, len(errs))))
         tk.after(i, tr)
+    # at most one error reply from the bus per message sent: a call that was refused (and answered with an error) must not be answered
+    # again later (NoReply when the callee leaves, or on timeout) - counted per sender and serial, so that reused serials cannot confuse it
+    sends, errors, raw_writers = {}, {}, set()
+    for i, (per, closed) in enumerate(tr.steps):
+        op = tr.ops[i]
+        if op[0] == "raw":
+            raw_writers.add(op[1])
+        if op[0] in ("send", "sendx") and tr.sent(i):
+            k = (op[1], fld(tr.sent(i), "ser")); sends[k] = sends.get(k, 0) + 1
+        if op[0] == "frozen":
+            for s_, l_ in zip([x for x in op[1] if x[0] == "send"], buscheck.decode_sent([x[2] for x in op[1] if x[0] == "send"])):
+                if l_:
+                    k = (s_[1], fld(l_, "ser")); sends[k] = sends.get(k, 0) + 1
+                else:
+                    raw_writers.add(s_[1])
+        for cid, ls in per.items():
+            for l in ls:
+                if fld(l, "t") == "3" and hexname(fld(l, "sender")) == BUS and fld(l, "rs") not in (None, "-"):
+                    k = (cid, fld(l, "rs")); errors.setdefault(k, []).append(i)
+    for (cid, ser), at in sorted(errors.items()):
+        if cid not in raw_writers and len(at) > sends.get((cid, ser), 0) and sends.get((cid, ser), 0) > 0:
+            bad.append((None, "connection %d sent %d message(s) with serial %s and got %d error replies from the bus for it (steps %s): a message is answered once" %
+                        (cid, sends[(cid, ser)], ser, len(at), at)))
     return bad
 
 
